@@ -41,7 +41,7 @@ CHECKS = {
         design_ref="DESIGN.md §5 C05", note=_KM_NOTE + " Real hashbrown's own unsafe code is executed only by the KV-lite facts (quick) and the KR-lite scenarios (thorough).",
         technique="SAT-based bounded model checking (Kani/CBMC) with contract (ghost) assertions and CBMC pointer checks"),
     "C07": dict(
-        text="PARTIAL: Kani has no unwinding, so a caught panic cannot be executed. Decided instead: at the instant a replace_entry_with closure runs inside a griddle frame (crash point = that instant), the map already satisfies INV minus the element in flight, for all contents and layouts; griddle has no drop guard on that path, so this is the state catch_unwind leaves. Covered callbacks: replace_entry_with (raw and occupied handles), retain (symbolic crash index), drain_filter (enumerated), or_insert_with, and_modify, and Hash invoked from insert/carry (enumerated crash index). Not covered: Eq, Clone, Drop panics and anything that needs real unwinding through hashbrown frames.",
+        text="PARTIAL: Kani has no unwinding, so a caught panic cannot be executed. Decided instead: at the instant a replace_entry_with closure runs inside a griddle frame (crash point = that instant), the map already satisfies INV minus the element in flight, for all contents and layouts; griddle has no drop guard on that path, so this is the state catch_unwind leaves. Covered callbacks: replace_entry_with (raw and occupied handles), retain (symbolic crash index), drain_filter (enumerated), or_insert_with, and_modify, and Hash invoked from insert/carry and from reserve/carry_all (enumerated crash index). Not covered: Eq, Clone, Drop panics and anything that needs real unwinding through hashbrown frames.",
         design_ref="DESIGN.md §5 C07", note=_KM_NOTE + " No unwinding semantics: panics inside hashbrown frames, Eq/Clone/Drop panics are outside the claim.",
         technique="SAT-based bounded model checking (Kani/CBMC); invariant asserted at callback instants"),
     "C08": dict(
@@ -73,11 +73,11 @@ CHECKS = {
         design_ref="DESIGN.md §5 C13", note=_KM_NOTE + " Lazy algebra: contents concrete (bucket index = element), operand pairs enumerated.",
         technique="SAT-based bounded model checking (Kani/CBMC); witness element for exactly-once yields"),
     "C14": dict(
-        text="Pairs (and a triple) of maps in different shapes, phases and hasher ids whose contents are related only by assumptions over stored pairs: equal contents imply ==, symmetry, reflexivity, equal len/get/contains and equal iteration multiplicity for the witness key; a single differing value (also one parked in an old table) or key implies != both ways; transitivity on three maps. Debug output excluded (core::fmt).",
+        text="Pairs (and a triple) of maps in different shapes, phases and hasher ids whose contents are related only by assumptions over stored pairs: equal contents imply ==, symmetry, reflexivity, equal len/get/contains and equal iteration multiplicity for the witness key; a single differing value (also one parked in an old table) or key implies != both ways; transitivity on three maps; and the read-only API itself (len, is_empty, get, contains_key, get_key_value) against a scan of both tables in the layouts where a phase-dependent answer would show (main table empty with leftovers, cursor in a later group). Debug output excluded (core::fmt).",
         design_ref="DESIGN.md §5 C14", note=_KM_NOTE + " 4 elements per map; Debug formatting outside the claim.",
         technique="SAT-based bounded model checking (Kani/CBMC) over pairs/triples of symbolic table states"),
     "C16": dict(
-        text="With the serde feature: (1) serialising a map/set in any INV state declares exactly len() and emits each element exactly once, in iteration order (recording Serializer, symbolic contents); (2) deserialising ANY record of <= 3 symbolic entries (duplicates allowed) yields the map sequential insertion yields, and HashSet::deserialize_in_place into any INV destination leaves exactly the record's elements. (1) and (2) compose to the round trip; a single round-trip harness does not finish under CBMC.",
+        text="With the serde feature: (1) serialising a map/set in any INV state declares exactly len() and emits each element exactly once, in iteration order (recording Serializer, symbolic contents); (2) deserialising ANY record of <= 3 symbolic entries (duplicates allowed) yields the map sequential insertion yields, and HashSet::deserialize_in_place into any INV destination leaves exactly the record's elements (an empty record leaves it empty). (1) and (2) compose to the round trip; a single round-trip harness does not finish under CBMC.",
         design_ref="DESIGN.md §5 C16, A.3", note=_KM_NOTE + " The Serializer/Deserializer are 150 lines in the harness crate (no data format, no formatting); records of <= 3 entries.",
         technique="SAT-based bounded model checking (Kani/CBMC) with a recording Serializer and a replaying Deserializer"),
     "C17": dict(
